@@ -131,4 +131,7 @@ def standard_world(k, s, pid=500, parent_pid=400):
     for i in range(s["nchildren"]):
         k.spawn(pid + 100 + i, comm=b"child", ppid=pid,
                 starttime=p.starttime + 10 + i)
+    if s["nchildren"]:
+        k.spawn(pid + 200, comm=b"grandchild", ppid=pid + 100,
+                starttime=p.starttime + 30)
     return p
